@@ -1,4 +1,4 @@
-// Positive controls for C01.R9 / R10 / R11 / R13: each parse function below MUST be reported by the corresponding rule on every run
+// Positive controls for C01.R9 / R10 / R11 / R13 / R14: each parse function below MUST be reported by the corresponding rule on every run
 // (compiled with the flags of a real unit; never linked, never executed).
 #include <QDomElement>
 #include <QString>
@@ -54,6 +54,33 @@ struct Codec {
     {
         const auto v = element.attribute(QStringLiteral("flag")).trimmed().toLower();
         flag = v == QStringLiteral("1") || v == QStringLiteral("true");
+    }
+
+    // R14: children are kept only when a member has one of a few values (the writer emits every child)
+    struct Child {
+        QString kind;
+        QString jid;
+        void parse(const QDomElement &e) { kind = e.attribute(QStringLiteral("kind")); jid = e.attribute(QStringLiteral("jid")); }
+        bool isKnownKind() const { return !jid.isEmpty() && (kind == QStringLiteral("to") || kind == QStringLiteral("cc")); }
+        bool isComplete() const { return !kind.isEmpty() && !jid.isEmpty(); }
+    };
+    QVector<Child> children;
+    void parseFiltersByValue(const QDomElement &element)
+    {
+        Child c;
+        c.parse(element);
+        if (c.isKnownKind()) {
+            children.push_back(c);
+        }
+    }
+    // R14 negative: an emptiness filter is fine (blank values are outside the round-trip claim) - must NOT be reported
+    void parseFiltersEmpty(const QDomElement &element)
+    {
+        Child c;
+        c.parse(element);
+        if (c.isComplete()) {
+            children.push_back(c);
+        }
     }
 
     // R11: a 64-bit member parsed with a 32-bit conversion
